@@ -349,8 +349,8 @@ Accept(S, d, p) ==
                 [] OTHER -> S1
         S3 == Record(S2, "received_part", d)
         \* receive callback of the configuration: one-shot offset for even parts
-        S4 == IF cfg.devs[d].offmod # 0 /\ ~S3.part[p].batch /\ S3.part[p].seq % 2 = 0
-              THEN [S3 EXCEPT !.dev[d].off = @ + cfg.devs[d].offmod] ELSE S3
+        S4 == IF ~S3.part[p].batch /\ S3.part[p].seq % 2 = 0
+              THEN [S3 EXCEPT !.dev[d].off = @ + cfg.devs[d].offmod + cfg.devs[d].offmod2] ELSE S3
         S5a == [S4 EXCEPT !.occ = Append(@, <<"recv", d, p, S4.part[p].quality, ValueOf(S4, p),
                                               CycleInEffect(S4, d, p), S4.dev[d].off>>)]
         \* a sink's receive callback of the configuration may add value to the received parts afterwards
